@@ -27,6 +27,10 @@ type Outcome struct {
 	Trace      []string       `json:"trace,omitempty"`
 	Sample     interface{}    `json:"sample,omitempty"`
 	Infra      string         `json:"infra,omitempty"` // harness trouble: exit 2, never a violation
+	// NonDet marks runs of the both-ready mode (DESIGN.md §2.9): the library's
+	// select may legally take either branch, so the trace is not a function of
+	// the seed and the run is excluded from the determinism self-test.
+	NonDet bool `json:"nondet,omitempty"`
 }
 
 func (o *Outcome) Violate(class, format string, a ...interface{}) {
